@@ -1714,3 +1714,22 @@ def gridlist_ctor(ex, st, args, kwargs, node):
 
 
 CTOR_STUBS = {'mapproxy.grid:NamedGridList': gridlist_ctor, 'mapproxy.util.collections:ImmutableDictList': gridlist_ctor}
+
+
+@extern('itertools.zip_longest')
+def it_zip_longest(ex, st, args, kwargs, node):
+    """zip_longest(a, b, fillvalue=None): length max(len a, len b), exhausted sides give the fill value (None)"""
+    fill = kwargs.get('fillvalue', NONE)
+    if not isinstance(fill, VNone):
+        raise Unsupported('zip_longest with a non-None fillvalue')
+    seqs = []
+    for a in args:
+        o = as_seq(ex, st, a)
+        if len(o) != 1 or isinstance(o[0][1], Raised):
+            raise Unsupported('zip_longest over forking iterables')
+        seqs.append(o[0][1])
+    n = seqs[0].length()
+    for s_ in seqs[1:]:
+        n = z3.If(s_.length() > n, s_.length(), n)
+    return [(st, VSeq(length=n, kind='list',
+                      elem=lambda i: VSeq([VOpt(i >= s_.length(), s_.elem(i)) for s_ in seqs], kind='tuple')))]
